@@ -108,7 +108,7 @@ def make_F(prob, cfg, rec):
         if z is None:
             rec['calls'].append(('F1', xl, v is not None))
             if refuse is not None and refuse(rec, xl):
-                return None
+                return None if cfg.get('none_style', 0) == 0 else (None, None)
             if v is None:
                 return None if cfg.get('none_style', 0) == 0 else (None, None)
         else:
